@@ -185,6 +185,35 @@ class Spaces:
                 typed_defs[k] = typed_defs.get(k, 0) + 1
 
 
+def derived_from_mask_position(fnode, name, masks):
+    """Does the (transitive) definition of `name` read a label mask in a
+    position-dependent way?"""
+    defs = {}
+    for n in ast.walk(fnode):
+        if isinstance(n, ast.Assign):
+            for t in n.targets:
+                if isinstance(t, ast.Name):
+                    defs.setdefault(t.id, []).append(n.value)
+    seen = set()
+    work = [name]
+    while work:
+        v = work.pop()
+        if v in seen:
+            continue
+        seen.add(v)
+        for e in defs.get(v, []):
+            for x in ast.walk(e):
+                if isinstance(x, ast.Subscript) and isinstance(x.value, ast.Name) and x.value.id in masks \
+                        and isinstance(x.slice, ast.Slice):
+                    return True
+                if isinstance(x, ast.Call) and c01.callname(x) in ("cumsum", "flatnonzero", "nonzero", "where",
+                                                                    "argwhere", "searchsorted", "count_nonzero") \
+                        and (names_in(x) & masks) and c01.callname(x) != "count_nonzero":
+                    return True
+            work.extend(names_in(e))
+    return False
+
+
 def callee_mask_return(p, f, call):
     """If `call` resolves to a project function whose returned array is built
     from K[param][:, param] (boolean-mask submatrix of a parameter), return the
@@ -291,6 +320,17 @@ def run(p, report, tier):
                     a, i = n.args[ai].id, n.args[pi].id
                     ls = local_mask_arrays.get(a) or sp.length.get(a) or sp.len_space_of_expr(n.args[ai])
                     vs = sp.value.get(i)
+                    if ls is not None and ls[0] == "MASK" and vs is None:
+                        # a position inside a boolean-mask sub-array has to be
+                        # computed by counting mask entries up to a row:
+                        # mask[:s] / cumsum / flatnonzero / searchsorted on a label mask
+                        ok = derived_from_mask_position(f.node, i, set(sp.masks))
+                        n_pairs += 1
+                        report.add("R8.1", ent, f"`{site_id(n, 60)}` position derived from the mask", f"{f.file}:{n.lineno}", ok,
+                                   detail=f"`{a}` lives in {fmt(ls)}; the position is obtained by counting mask entries up to the row" if ok else
+                                   f"`{a}` lives in {fmt(ls)} but the position `{i}` is not computed from a position-dependent read of a "
+                                   "label mask (mask[:row], cumsum, flatnonzero, searchsorted): it is only right for special row layouts")
+                        continue
                     if ls is None or vs is None:
                         continue
                     n_pairs += 1
